@@ -84,7 +84,73 @@ E = K + "/parser/engine"
 
 
 def c08_jobs(tier):
-    return [job("ZZ_C08_Lossless", E, n=n) for n in range(0, (5 if tier == "quick" else 7) + 1)]
+    js = [job("ZZ_C08_Lossless", E, n=n) for n in range(0, (5 if tier == "quick" else 7) + 1)]
+    for L in range(1, (3 if tier == "quick" else 4) + 1):
+        for f, r in FMT_ROT_QUICK:
+            js.append(job("ZZ_C08_NoopReconcile", U, L=L, fmt=f, rot=r))
+    return js
+
+
+# ---------------------------------------------------------------- C01 / C10 / C09 (parser family)
+PZ = K + "/parser"
+FMT_ROT_QUICK = [(0, 0), (1, 1), (2, 2)]
+FMT_ROT_ALL = [(f, r) for f in range(3) for r in range(4)]
+
+
+def c01_jobs(tier):
+    js = []
+    q = tier == "quick"
+    for n in range(0, (5 if q else 6) + 1):
+        for ending in ([0] if q and n > 3 else [0, 1, 2]):
+            js.append(job("ZZ_C01_Headline", PZ, n=n, ending=ending))
+    for n in range(1, (6 if q else 7) + 1):
+        for indent in range(4):
+            if q and n > 4 and indent != n % 4:
+                continue
+            js.append(job("ZZ_C01_Entry", PZ, n=n, indent=indent, ending=(n + indent) % 3))
+    js.append(job("ZZ_C01_RangeTemplate", PZ, full=0 if q else 1, open=0))
+    js.append(job("ZZ_C01_RangeTemplate", PZ, full=0 if q else 1, open=1))
+    for L in range(1, (4 if q else 5) + 1):
+        combos = FMT_ROT_QUICK if (q or L == 5) else FMT_ROT_ALL
+        if q and L == 4:
+            combos = [(0, 1)]
+        for f, r in combos:
+            js.append(job("ZZ_C01_Structure", PZ, L=L, faults=1, fmt=f, rot=r))
+    if not q:
+        js.append(job("ZZ_C01_Structure", PZ, L=6, faults=0, fmt=0, rot=3))
+    # literals (shared with C16): a thin slice so that C01 stands on its own
+    for n in [4, 5, 7]:
+        js.append(job("ZZ_C16_TimeAccept", n=n))
+    js.append(job("ZZ_C16_DateAccept", n=10, century=20, _split=65536))
+    return js
+
+
+def c10_jobs(tier):
+    js = []
+    q = tier == "quick"
+    for L in range(1, (4 if q else 5) + 1):
+        combos = FMT_ROT_QUICK if q else FMT_ROT_ALL
+        if L >= 4:
+            combos = [(0, 1)] if q else FMT_ROT_QUICK
+        for f, r in combos:
+            js.append(job("ZZ_C10_ErrPos", U, L=L, fmt=f, rot=r, w=1 if L >= 4 else 2))
+    js.append(job("ZZ_C10_ErrPos", U, L=3, fmt=1, rot=2, w=3))
+    return js
+
+
+def c09_jobs(tier):
+    js = []
+    q = tier == "quick"
+    for L in range(1, (3 if q else 4) + 1):
+        combos = FMT_ROT_QUICK if q else FMT_ROT_ALL
+        if L == 3 and q:
+            combos = [(1, 2)]
+        if L == 4:
+            combos = [(0, 0), (1, 3)]
+        for f, r in combos:
+            js.append(job("ZZ_C09_PrintRoundtrip", U, L=L, fmt=f, rot=r))
+    js += [job("ZZ_C16_TimeRoundtrip"), job("ZZ_C16_DurationRoundtrip"), job("ZZ_C16_DateRoundtrip", century=20, _split=65536)]
+    return js
 
 
 # ---------------------------------------------------------------- C07
@@ -97,6 +163,9 @@ def c07_jobs(tier):
     if tier == "thorough":
         for w in [6, 7]:
             js.append(job("ZZ_C07_ParEquiv", E, n=4, w=w))
+    # the real record parser on generated documents (valid and invalid)
+    for L, w in ([(2, 2), (3, 2), (3, 3)] if tier == "quick" else [(2, 2), (3, 2), (3, 3), (4, 2), (4, 3), (4, 4)]):
+        js.append(job("ZZ_C07_RealParse", U, L=L, fmt=L % 3, rot=w % 4, faults=1, w=w))
     return js
 
 
@@ -109,6 +178,8 @@ def c02_jobs(tier):
     shapes = [(1, 1), (1, 2), (2, 1)] if tier == "quick" else [(1, 1), (1, 2), (2, 1), (1, 3), (3, 1), (2, 2)]
     for nrec, nent in shapes:
         js.append(job("ZZ_C02_Eval", S, nrec=nrec, nent=nent))
+    for L in range(1, (3 if tier == "quick" else 4) + 1):
+        js.append(job("ZZ_C02_EvalText", U, L=L, fmt=L % 3, rot=L % 4))
     return js + lemmas()
 
 
@@ -198,6 +269,37 @@ CHECKS = {
         },
         "outside": "explicit --time / --date values (covered by C04's command model); clocks outside UTC; switch (= stop + start)",
         "stubs": [MODELS["regexp"], MODELS["fmt"], MODELS["tabulate"], "app.Context: harness implementation (zzContext) holding the file as text and re-parsing it with the real parser, mirroring app.context.ReconcileFile"],
+        "assumptions": COMMON_ASSUME,
+    },
+    "C01": {
+        "jobs": c01_jobs,
+        "bounds": {
+            "quick": "headline: date + every tail of 0..5 bytes; entry line: every indentation style + every tail of 1..6 bytes (n>4: one style per length); range / open-range templates (time shapes x dash spacings x summaries, digits symbolic); line-structure: every kind sequence of 1..4 lines incl. rule-violating continuations (digits and summary bytes symbolic; LF, CRLF, missing final newline; rotating indentation styles); literals: slice of C16",
+            "thorough": "headline tails to 6 bytes, entry tails to 7 bytes, full time-shape templates, structures of 5 lines with faults and 6 lines without, all line-ending x indentation-rotation combinations",
+        },
+        "outside": "documents longer than the line bound; arbitrary bytes beyond the tail bounds; non-ASCII bytes in headline tails and value parts (asserted neither way); tab between value and summary, blanks inside the should-total parentheses, trailing blanks (asserted neither way, see DESIGN appendix); invalid UTF-8 in summaries (file encoding MUST be UTF-8)",
+        "stubs": [MODELS["regexp"], MODELS["fmt"], MODELS["utf8"], MODELS["bytealg"], MODELS["builder"]],
+        "assumptions": COMMON_ASSUME + ["the reference is two-sided with a don't-care band: conforming texts must be accepted with the denoted data, texts breaking a MUST rule listed in the property must be rejected, arguable readings are asserted neither way",
+                                        "the line-structure reference is an automaton over line kinds written from Specification.md I/II inside the document generator (zz_verif_gen.go)"],
+    },
+    "C10": {
+        "jobs": c10_jobs,
+        "bounds": {
+            "quick": "every generated document of 1..4 lines with one injected rule violation (10 fault kinds at every reachable position), parsed serially and with 2-3 workers in every delivery order",
+            "thorough": "5-line documents, all line-ending x indentation combinations",
+        },
+        "outside": "longer documents; several independent faults per document (only ordering and per-error validity are asserted for follow-up errors)",
+        "stubs": [MODELS["regexp"], MODELS["fmt"], MODELS["utf8"], MODELS["builder"], MODELS["json"]],
+        "assumptions": COMMON_ASSUME + ["`first line at which the text stops conforming` is computed by the generator's reference automaton"],
+    },
+    "C09": {
+        "jobs": c09_jobs,
+        "bounds": {
+            "quick": "every conforming generated document of 1..3 lines (all kind sequences; 2- to 4-space and tab indentation, LF/CRLF, missing final newline, `/` dates, 12-hour and shifted times, dash spacing, `???` placeholders, explicit plus, summaries with trailing blanks and entry-looking text, extra-indented continuation lines); literal round trips for all times, durations -100000..100000, dates of century 20",
+            "thorough": "documents of 4 lines; all formatting combinations",
+        },
+        "outside": "longer documents; summaries containing a carriage return (known defect F8, see DESIGN) and invalid UTF-8",
+        "stubs": [MODELS["regexp"], MODELS["fmt"], MODELS["utf8"], MODELS["builder"]],
         "assumptions": COMMON_ASSUME,
     },
     "C07": {
